@@ -468,6 +468,28 @@ def expected_loop(name):
         if inpl:
             return esc('L(i0,L(i1,B(%s=,%s,%s)))' % (sym, E2('P0'), rhs)), 'P0(i,j) %s= %s' % (sym, 'P1' if rhs == 'P1' else 'P1(i,j)')
         return 'L\\(i0,L\\(i1,B\\(=,%s,%s\\)\\)\\)' % (R2, esc('B(%s,%s,%s)' % (sym, E2('P0'), rhs))), 'r(i,j) = P0(i,j) %s %s' % (sym, 'P1' if rhs == 'P1' else 'P1(i,j)')
+    # FixedArray2D / FixedMatrix operator helpers: the functor applied to element (i, j) of every array operand, scalar last
+    # (first for the reflected forms)
+    m = re.match(r'^apply_(array2d|matrix)_(array2d|matrix|scalar)?_?(unary|binary|ibinary)_(r?)op$', name)
+    if m:
+        kind, second, ar, refl = m.group(1), m.group(2), m.group(3), m.group(4)
+        if kind == 'array2d': el = lambda x: esc('B((),%s,i1,i0)' % x); R_ = R2
+        else: el = lambda x: esc('M(element,%s,i0,i1)' % x); R_ = r'M\(element,D\(\w+\),i0,i1\)'
+        OP = r'C\(PyImath::op_\w+(<[^()]*>)?::apply,'
+        if ar == 'unary':
+            return 'L\\(i0,L\\(i1,B\\(=,%s,%s%s\\)\\)\\)\\)' % (R_, OP, el('P0')), 'r(i,j) = Op(P0(i,j))'
+        b = 'P1' if second == 'scalar' else None
+        a1 = el('P0'); a2 = esc('P1') if b else el('P1')
+        args = (a2 + ',' + a1) if refl else (a1 + ',' + a2)
+        if ar == 'ibinary':
+            return 'L\\(i0,L\\(i1,%s%s\\)\\)\\)' % (OP, args), 'Op(P0(i,j), %s) in place' % ('P1' if b else 'P1(i,j)')
+        return 'L\\(i0,L\\(i1,B\\(=,%s,%s%s\\)\\)\\)\\)' % (R_, OP, args), 'r(i,j) = Op(%s)' % ('P1, P0(i,j)' if refl else 'P0(i,j), ' + ('P1' if b else 'P1(i,j)'))
+    m = re.match(r'^mult(Dir|Vec)Matrix(22|33)_array$', name)
+    if m: return esc('L(i0,M(mult%sMatrix,P0,%s,B([],D(dst),i0)))' % (m.group(1), E1('P1'))).replace('D\\(dst\\)', r'D\(\w+\)'), 'P0.mult%sMatrix(P1[i], dst[i])' % m.group(1)
+    m = re.match(r'^inverse(22|33|44)_array$', name)
+    if m: return 'L\\(i0,B\\(=,%s,%s\\)\\)' % (R1, esc('M(inverse,%s,P1)' % E1('P0'))), 'dst[i] = P0[i].inverse(P1)'
+    m = re.match(r'^invert(22|33|44)_array$', name)
+    if m: return esc('L(i0,M(invert,%s,P1))' % E1('P0')), 'P0[i].invert(P1)'
     return None
 
 def rule_loops(fx, out):
